@@ -36,7 +36,8 @@ def model_walk(repo: Repo, cls: str, method: str) -> Walker:
         repo.memo[key] = Walker(repo, fi, self_class=cls, inline=inline_private_model_helpers)
         from .ir import settle_lazy_inits, settle_removed_costs
         settle_lazy_inits(repo.memo[key])
-        from .ir import settle_optional_minima
+        from .ir import settle_optional_minima, settle_record_carries
+        settle_record_carries(repo.memo[key])
         settle_optional_minima(repo.memo[key])
         settle_removed_costs(repo.memo[key])
     return repo.memo[key]
